@@ -267,6 +267,7 @@ def picklable_core(ctx, replayer="c08_checkpoint"):
 
 
 def run(ctx):
+    ctx.weak_ids |= set(['_initialize_from_resume/'])     # helper-level contracts: arbitrated by the property-level native contract when they fail
     picklable_core(ctx)
     for k in ("none", "int", "object"):
         save(ctx, k)
